@@ -128,7 +128,8 @@ def run(ctx, facts):
                   canon("(((((self.m - self.lastidx) as f64) * %s) as usize) + self.lastidx)" % U), canon("((((self.m - self.lastidx) as f64) * %s) as usize + self.lastidx)" % U)}
     okidx = len(idx_forms) == 1 and canon(idx_forms[0]) in good_forms
     ctor = facts.fn(FY + "new")
-    unif = [nf.nf(f["e"], True) for x in hirq.walk(ctor["hir"]) if x["k"] == "Struct" for f in x["fields"] if f["name"] == "unif_01"]
+    Rc = resolver_of(ctor)
+    unif = [nf.nf(f["e"], True, res=Rc) for x in hirq.walk(ctor["hir"]) if x["k"] == "Struct" for f in x["fields"] if f["name"] == "unif_01"]
     okx = unif in (["rand_distr::Uniform::<X>::new(0.0, 1.0).unwrap()"], ["rand::distr::Uniform::<X>::new(0.0, 1.0).unwrap()"])
     if okidx and okx:
         ctx.ok("IDXRANGE", FY + "next", "idx = lastidx + trunc(U * (m - lastidx)), U ~ Uniform[0,1)", hirq.loc(nx))
